@@ -1,7 +1,7 @@
 (* C03 property theorems (fine-grained model C03_Model.v: every interleaving of any number of
    threads on any number of vCPUs).  Statements that are not proved yet are kept as Definitions. *)
 From Coq Require Import ZArith List.
-From PV Require Import Base.U64 C04.C04_Heap C03.C03_Model C03.C03_WF C03.C03_Proofs C03.C03_Queue C03.C03_Notify.
+From PV Require Import Base.U64 C04.C04_Heap C03.C03_Model C03.C03_WF C03.C03_Proofs C03.C03_Queue C03.C03_Notify C03.C03_Result C03.C03_IntrRace.
 Import ListNotations.
 Local Open Scope Z_scope.
 
@@ -103,12 +103,42 @@ Theorem c03_notify_returns_on_empty_only : forall s t c all n,
 Proof. exact notify_returns_on_empty_only. Qed.
 Print Assumptions c03_notify_returns_on_empty_only.
 
+(* cv_wait_result.  The value wait() returns is `translate ret en` where (ret, en) is what
+   set_error_number delivers when the waiter resumes (the step out of PWaitSlept; the re-lock loop only
+   delays the return).  It is 0 only if a notify picked this very waiter; it is the "slept the whole
+   timeout" ETIMEDOUT (ret = 0) only if the vCPU's timer woke it, and then deadline <= now.
+   Holds in every interleaving, interrupts included (their error numbers are > 0; an interrupt that
+   passes errno = ETIMEDOUT itself is of course indistinguishable: that is the `ret = 0` hypothesis). *)
+Theorem c03_cv_wait_result : forall nv kinds home progs s v t r c l,
+  Reach nv kinds home progs s -> runq (vc s v) = Th t :: r -> tpc (th s t) = PWaitSlept c l ->
+  let '(ret, en, _) := take_err s t in
+  (translate ret en = (0, 0) -> exists n, wk (th s t) = WNotified n) /\
+  (translate ret en = (-1, ETIMEDOUT) -> ret = 0 -> wk (th s t) = WTimeout /\ ts (th s t) <= now s).
+Proof. exact cv_wait_result. Qed.
+Print Assumptions c03_cv_wait_result.
+
+(* the invariant behind it: error_number = -1 only for a waiter picked by a notify (cv queue) or a
+   hand-off (mutex queue); SLEEPING threads carry no wake reason; a timer wake-up has deadline <= now *)
+Theorem c03_result_invariant : forall nv kinds home progs s, Reach nv kinds home progs s -> RS s.
+Proof. exact RS_reachable. Qed.
+Print Assumptions c03_result_invariant.
+
+(* FINDING (model level, 3 vCPUs): with thread_interrupt in the picture "notified => wait returns 0" is refuted:
+   the interrupter's unlocked test-then-write of error_number overwrites the -1 of a notification *)
+Theorem c03_notified_returns_0_refuted_with_interrupts :
+  exists s, Reach 3 (fun _ => KSpin) (fun _ => O) race_progs s /\
+    (exists e, In e (trace s) /\ ev_t e = 2%nat /\ ev_i e = 0%nat /\ ev_ret e = 3)
+    /\ (exists e, In e (trace s) /\ ev_t e = 3%nat /\ ev_i e = 1%nat /\ ev_ret e = -1 /\ ev_err e = 4).
+Proof. exact notified_returns_0_refuted_with_interrupts. Qed.
+Print Assumptions c03_notified_returns_0_refuted_with_interrupts.
+
 (* ---- statements not proved yet (kept at full strength) ---------------------------------------- *)
 (* never_bad: `bad` is set only by the else-branch of the PNfGo step, which c03_notify_go_head /
    c03_notify_go_effect show is never taken; the global statement needs one more pass over all steps *)
 Definition never_bad : Prop := forall nv kinds home progs s, Reach nv kinds home progs s -> bad s = false.
-(* cv_wait_result: 0 only if notified; ETIMEDOUT only if woken by the timer at/after the deadline *)
-Definition cv_wait_result : Prop := forall nv kinds home progs s t c l,
-  Reach nv kinds home progs s -> tpc (th s t) = PWaitSlept c l ->
-  (err (th s t) = -1 -> exists n, wk (th s t) = WNotified n) /\
-  (wk (th s t) = WTimeout -> ts (th s t) <= now s).
+(* "notified => returns 0" (the converse of the first half of c03_cv_wait_result) is NOT an invariant of the
+   faithful model when interrupts are present: thread_interrupt's unlocked `out:` path can overwrite the -1
+   of a notification (see notes/C03.md, Findings); it holds for interrupt-free programs (not mechanised). *)
+Definition cv_notified_returns_0 : Prop := forall nv kinds home progs s t c l n,
+  Reach nv kinds home progs s -> (forall k, ~ exists j e, In (OInterrupt j e) (progs k)) ->
+  tpc (th s t) = PWaitSlept c l -> wk (th s t) = WNotified n -> err (th s t) = -1.
